@@ -14,6 +14,10 @@ ob("Vgettagref", "C08", entry="h_Vgettagref", enforce="Vgettagref", **VG)
 ob("Vgettagrefs", "C08", entry="h_Vgettagrefs", enforce="Vgettagrefs", loops=True, nloops=1, loopcls="P", **VG)
 ob("Vsetname", ["C08", "C20"], entry="h_Vsetname", enforce="Vsetname", defines=["VGP_ABS_STR"], overflow=True, **VG)
 ob("Vsetclass", ["C08", "C20"], entry="h_Vsetclass", enforce="Vsetclass", defines=["VGP_ABS_STR"], overflow=True, **VG)
+RT = dict(entry="h_vg_roundtrip", mode="bounded", unwind=6, cex_unwind=6, unit="vgp_u.c", file="hdf/src/vgp.c", objbits=10)
+for _n in range(4):  # one run per member count (symbolic record offsets are what costs)
+    ob(f"vg_roundtrip_n{_n}", ["C08", "C02"], defines=["VGP_ALLOC_OK", f"RT_NFIX={_n}"],
+       bound=f"nvelt=={_n} (runs for 0..3), names<=3 chars, nattrs<=2, version<=4, allocations succeed", **RT)
 
 prop("C08",
      residual="Vdetach write-back and descriptor reuse, per-file vgroup/vdata trees (tbbt), Vinsert by handle, "
